@@ -143,6 +143,13 @@ func userFuncsOf(c *an.Ctx, target *ssa.Function) map[*ssa.Function]ssa.Instruct
 				}
 			}
 			if ci, ok := in.(ssa.CallInstruction); ok && ci.Common().IsInvoke() && recvT != nil && ci.Common().Method.Name() == target.Name() {
+				if dv := an.StaticCallee(ci); dv != nil {
+					// the receiver was boxed in this function from one concrete type: the call is that type's method only
+					if dv == target || dv.Origin() == target {
+						out[fn] = in
+					}
+					return
+				}
 				if it, ok := ci.Common().Value.Type().Underlying().(*types.Interface); ok && types.Implements(recvT, it) {
 					out[fn] = in
 				}
@@ -199,6 +206,9 @@ func c13callers(c *an.Ctx) {
 			seen[f] = true
 			us := userFuncsOf(c, f)
 			if len(us) == 0 {
+				if an.Baseline != nil && !baselineHas(f) {
+					return // a new helper nothing calls (the copy the normaliser left behind after inlining it) counts nothing
+				}
 				roots[n] = at
 				return
 			}
